@@ -59,6 +59,10 @@ pub fn apply_ops_with(mapping: &[u8], file: &[u8], ops: &[DiskOp]) -> AlignedBuf
                 let len = img.len();
                 if *kind == 0 && !mapping.is_empty() {
                     img = mapping.iter().cycle().take(len.max(24)).copied().collect();
+                } else if *kind == 2 {
+                    img = vec![0u8; len.max(24)];
+                } else if *kind == 3 {
+                    img = vec![0xFFu8; len.max(24)];
                 } else {
                     let mut r = Rng::new(*seed);
                     img = (0..len.max(24)).map(|_| r.next_u64() as u8).collect();
@@ -221,11 +225,33 @@ pub fn header_edits(h: &Header) -> Vec<DiskOp> {
     // a file from a machine of the other endianness (whole header, whole file), and foreign files
     v.push(DiskOp::SwapWords { words: 6 });
     v.push(DiskOp::SwapWords { words: usize::MAX });
+    v.push(DiskOp::Foreign { kind: 2, seed: 0 }); // a preallocated, never written file: all zero
+    v.push(DiskOp::Foreign { kind: 3, seed: 0 }); // erased flash: all 0xFF
     v.push(DiskOp::Foreign { kind: 0, seed: 0 });
     v.push(DiskOp::Foreign { kind: 1, seed: h.string_bytes as u64 ^ 0x5eed });
     // the four counts
     for (off, n) in [(8usize, h.num_classes), (12, h.num_members), (16, h.num_members_by_params), (20, h.string_bytes)] {
-        for val in [0u32, n.wrapping_sub(1), n.wrapping_add(1), n.wrapping_add(2), n.wrapping_add(1 << 16), 1 << 24, 1 << 31, u32::MAX - 1, u32::MAX] {
+        // (incl. the bands where count x entry size comes close to 2^32: 28-byte classes, 36-byte members)
+        let per = if off == 8 { 28u64 } else if off == 20 { 1 } else { 36 };
+        let band = ((1u64 << 32) / per) as u32;
+        for val in [
+            0u32,
+            n.wrapping_sub(1),
+            n.wrapping_add(1),
+            n.wrapping_add(2),
+            n.wrapping_add(1 << 16),
+            1 << 24,
+            1 << 31,
+            u32::MAX - 1,
+            u32::MAX,
+            band.wrapping_sub(2),
+            band.wrapping_sub(1),
+            band,
+            band.wrapping_add(1),
+            band.wrapping_add(2),
+            (((1u64 << 32) - 24) / per) as u32,
+            (((1u64 << 32) - 64) / per) as u32,
+        ] {
             if val != n {
                 v.push(DiskOp::HeaderSet { off, value: val });
             }
